@@ -12,6 +12,7 @@ import Model.Pool
 import Model.Parse
 import Model.Macat
 import Model.Opt
+import Model.Core
 import Generated.Facts
 import Driver.Machines
 open Model
@@ -114,6 +115,12 @@ def evalStateless (tag : String) (a : List String) : Option (String × String) :
     let r := Opt.resolve Generated.optTable chain (Opt.constOf Generated.optionNames opt) (Opt.parseVal ty val)
     some (r, r)
   | "ops.table", [proto, op] => let r := Opt.opsTable Generated.protoInfo proto op; some (r, op ++ "-" ++ r)
+  | "alloc.get", [next, used] =>
+    -- ids in use as a comma-separated list; result: the id handed out and the counter afterwards (mod 2^32)
+    let us := if used == "-" then [] else (used.splitOn ",").map natArg
+    match Core.allocScan us (us.length + 4) (natArg next) with
+    | some (id, nx) => some (s!"{id} {nx % 4294967296}", if natArg next % 2147483648 == 0 then "skip-zero" else if us.contains (natArg next % 2147483648) then "skip-used" else "direct")
+    | none => some ("exhausted", "exhausted")
   | "pool.new", [sz] =>
     -- observed: "<len> <hlen> <cap>"; the model gives the admissible capacities (checkPool)
     if sz.isEmpty then none else none
